@@ -104,7 +104,7 @@ def typestate(ctx):
     sites = 0
     serialising = 0
     for f in repo.all_functions():
-        src = ast.unparse(f.node)
+        src = generic.source_with_helpers(repo, f)
         if "SuitEnvelopeTagged" not in src and not (f.cls is not None and f.cls.name == MIXIN and "cls.from_" in src):
             continue
         if "from_obj(" not in src and "from_cbor(" not in src:
